@@ -6,9 +6,10 @@ cd /repo || exit 2
 if ! git diff --quiet; then echo "/repo not clean"; exit 2; fi
 git apply "$P" || { echo "patch does not apply"; exit 2; }
 cd /verif
-./check $ID --tier $TIER > /tmp/seedrun.out 2>&1
+OUT=$(mktemp /tmp/seedrun.XXXXXX)
+./check $ID --tier $TIER > $OUT 2>&1
 RC=$?
 git -C /repo checkout -- .; rm -rf /verif/replays/$ID
-grep -a -E "^VIOLATION|^KNOWN|^MACHINERY|^C[0-9]+ " /tmp/seedrun.out | cut -c1-400 | head -8
+grep -a -E "^VIOLATION|^KNOWN|^MACHINERY|^C[0-9]+ " $OUT | cut -c1-400 | head -8
+rm -f $OUT
 echo "exit=$RC"
-cd /verif/harness && cargo build --release 2>&1 | grep -E "^error" -A7 | head
